@@ -210,7 +210,7 @@ func main() {
 		os.Exit(replay(os.Args[2]))
 	}
 	tier := os.Getenv("VERIF_TIER")
-	maxPat, maxSub, keysPat := 4, 3, 3
+	maxPat, maxSub, keysPat := 5, 3, 4
 	if tier == "thorough" {
 		maxPat, maxSub, keysPat = 6, 4, 5
 	}
